@@ -11,6 +11,7 @@ import (
 
 	"verifmc/drv"
 	"verifmc/engine"
+	"verifmc/model"
 )
 
 // C12 — aws-chunked decoding (inputmc, deviations = short reads).
@@ -418,6 +419,80 @@ func runC12(c *engine.Ctx) {
 				Msg: fmt.Sprintf("rejected stream (%s -> %s) changed the stored state on %s:\nbefore:\n%s\nafter:\n%s", mc.name, r.Short(), mc.kind, before, after)})
 		}
 	})
+	// ---- part uploads: the framing applies to them as to object uploads ----
+	{
+		type pcase struct {
+			kind    drv.Kind
+			n, cz   int
+			every   int
+			decoded int // declared decoded length relative to n: 0 exact, +1, -1
+		}
+		var pcs []pcase
+		for _, k := range kinds {
+			for _, n := range []int{1, 5, 1024, 70000} {
+				for _, cz := range []int{1, 3, 1000, 65536} {
+					if cz > n && cz != 3 {
+						continue
+					}
+					for _, ev := range []int{0, 1, 7} {
+						if n > 2000 && ev == 1 {
+							continue
+						}
+						pcs = append(pcs, pcase{k, n, cz, ev, 0})
+					}
+				}
+			}
+			pcs = append(pcs, pcase{k, 20, 10, 0, +1}, pcase{k, 20, 10, 0, -1})
+		}
+		engine.ParallelFor(len(pcs), func(_, i int) {
+			pc := pcs[i]
+			w := newW(pc.kind)
+			defer w.Close()
+			payload := mkPayload(pc.n)
+			enc := drv.EncodeChunked(payload, split(pc.n, pc.cz))
+			r0 := w.Do(drv.Req{Method: "POST", Path: "/aaa/mp", Query: "uploads"})
+			id := ""
+			if x := r0.XML(); x != nil {
+				id = x.T("UploadId")
+			}
+			if id == "" {
+				engine.HarnessError("C12 initiate: %s", r0.Short())
+			}
+			rp := w.Do(drv.Req{Method: "PUT", Path: "/aaa/mp", Query: drv.Q("uploadId", id, "partNumber", "1"), BodyReader: drv.NewFrag(enc, nil, pc.every, false), DeclLen: ptr64(int64(len(enc))), Header: streamHdr(pc.n + pc.decoded)})
+			c.Add(0, 1, 1, 1)
+			hist := []string{fmt.Sprintf("%s part upload: payload %d bytes, chunks of %d, reads of %d, declared %+d", pc.kind, pc.n, pc.cz, pc.every, pc.decoded)}
+			report := func(field, msg string) {
+				c.Report(&engine.Violation{Sig: sig("C12", "any", "streaming-part", field), World: string(pc.kind), History: hist, Msg: hist[0] + ": " + msg})
+			}
+			if rp.Panic != "" {
+				report("panic@"+drv.PanicFrame(rp.Panic), firstLine(rp.Panic))
+				return
+			}
+			if pc.decoded != 0 {
+				pp := w.ListParts("aaa", "mp", id, "")
+				if rp.Status < 300 {
+					report("length-mismatch-accepted", "a part whose decoded length differs from the declared one was accepted with "+rp.Short())
+				} else if len(pp.Parts) != 0 {
+					report("state-changed", "the refused part is listed")
+				}
+				return
+			}
+			if rp.Status != 200 {
+				report("refused-valid", "a valid streaming part upload answered "+rp.Short())
+				return
+			}
+			pp := w.ListParts("aaa", "mp", id, "")
+			if len(pp.Parts) != 1 || pp.Parts[0].Size != int64(pc.n) || pp.Parts[0].ETag != drv.ETagOf(payload) {
+				report("stored-part", fmt.Sprintf("ListParts shows %+v, want one part of %d bytes with the MD5 of the payload", pp.Parts, pc.n))
+				return
+			}
+			cr := w.Do(drv.Req{Method: "POST", Path: "/aaa/mp", Query: drv.Q("uploadId", id), Body: completeBody([]model.CPart{{N: 1, ETag: drv.ETagOf(payload)}})})
+			v := w.Get("aaa", "mp")
+			if cr.Status != 200 || v.Status != 200 || !bytes.Equal(v.Body, payload) {
+				report("completed-object", fmt.Sprintf("complete answered %s, GET %d with %d bytes (want the %d payload bytes)", cr.Short(), v.Status, len(v.Body), pc.n))
+			}
+		})
+	}
 	// ---- how the declared decoded length is written ----
 	// A declaration made of decimal digits means that decimal number (leading zeros or not):
 	// if it differs from the stream's length the upload must be refused. Other spellings may be
